@@ -393,6 +393,23 @@ prop('C20', obligations=['Props/C20.vo'],
      rule='every operation sequence of length <= 3 over 21 operations (SetThis of 3 caller maps / nil, SetThisValue, Set, Get, caller '
           'write, 9 formulas reading and assigning locals and fields) containing an observation; random histories of length 4..30', trust=EV_TRUST)
 
+
+prop('C08', obligations=['Props/C08.vo'],
+     suites=[dict(name='purity', project=ident, definitive=False, what='-')],
+     rule='histories over a pool of 40 formulas (valid and invalid) x 3 data maps: each target is parsed twice and evaluated 3 times in '
+          'fresh runners, interleaved with 0-5 parses / evaluations / field analyses of unrelated formulas; the tree (kinds, fields, '
+          'positions, ids, parents) is dumped before and after; distinct = distinct (formula, data) target; all non-trivial',
+     trust=['the write footprints are extracted by /verif/tools/effects (golang.org/x/tools SSA v0.29.0; root-of-address classification, '
+            'no alias analysis, library methods summarised by an allow-list of read-only methods); that each operation respects its '
+            'computed footprint is the translator\'s claim'])
+prop('C09', obligations=['Props/C09.vo'],
+     suites=[dict(name='race', project=ident, definitive=False, what='-')],
+     rule='harness built with -race: rounds of 2/4/16 goroutines x 150 operations on 36 shared trees (evaluate with own runner and '
+          'data, collect fields, parse and format errors of other texts), results compared with the sequential ones; a race report '
+          'of the detector is the violation; distinct = distinct round; all non-trivial',
+     trust=['the write footprints are extracted by /verif/tools/effects (SSA, no alias analysis, read-only allow-list for library '
+            'methods); the Go memory model, the race detector\'s coverage and the decimal library\'s internals are outside the proof'])
+
 # ------------------------------------------------------------------ decision procedure
 
 def theorem_names(V, pid):
@@ -462,6 +479,10 @@ def check(V, pid, tier, seed):
         if 'error' in r:
             print('HARNESS FAILED (no verdict): ' + r['error'])
             return 2
+        if 'crash' in r:
+            viol.append(dict(suite=s['name'], case='NOP\tcrash\t' + s['name'], observed=r.get('report', ''), required='',
+                             what='oracle: ' + r['crash']))
+            continue
         evaluations += len(r['cases'])
         nontrivial += r['stats'].get('distinct_nontrivial', 0)
         samples += (r['stats'].get('samples') or [])[:6]
